@@ -876,9 +876,16 @@ fn print_history(rep: &mut Report, mode: Mode) {
         limit: usize,
         panics: bool,
         out: String,
+        /// a destination that *re-enters* the printer: on every chunk it prints this value
+        /// (compact and pretty) on the same thread, as a tee or logging writer would
+        reenter: Option<Value>,
+        inner: Vec<(String, String)>,
     }
     impl std::fmt::Write for Dest {
         fn write_str(&mut self, s: &str) -> std::fmt::Result {
+            if let Some(v) = &self.reenter {
+                self.inner.push((v.to_string(), v.pretty_print().to_string()));
+            }
             if self.out.len() + s.len() > self.limit {
                 if self.panics {
                     panic!("the destination panics");
@@ -917,7 +924,7 @@ fn print_history(rep: &mut Report, mode: Mode) {
                 let h = std::thread::spawn(move || {
                     let first = std::panic::catch_unwind(std::panic::AssertUnwindSafe(|| {
                         use std::fmt::Write;
-                        let mut d = Dest { limit: k, panics, out: String::new() };
+                        let mut d = Dest { limit: k, panics, out: String::new(), reenter: None, inner: Vec::new() };
                         let _ = write!(d, "{}", first_real.print_with(ro.clone()));
                     }));
                     let _ = first;
@@ -964,10 +971,50 @@ fn print_history(rep: &mut Report, mode: Mode) {
                 }
             }
         }
+        // a destination that re-enters the printer on every chunk it receives
+        for (pi, probe) in probes.iter().enumerate() {
+            t.evals += 1;
+            let probe_real = bridge::to_value(probe);
+            let (fr, ro2, pr) = (first_real.clone(), ro.clone(), probe_real.clone());
+            let h = std::thread::spawn(move || {
+                std::panic::catch_unwind(std::panic::AssertUnwindSafe(|| {
+                    use std::fmt::Write;
+                    let mut d = Dest { limit: usize::MAX, panics: false, out: String::new(), reenter: Some(pr), inner: Vec::new() };
+                    let ok = write!(d, "{}", fr.print_with(ro2)).is_ok();
+                    (ok, d.out, d.inner)
+                }))
+                .map_err(|p| p.downcast_ref::<String>().cloned().or_else(|| p.downcast_ref::<&str>().map(|s| s.to_string())).unwrap_or_default())
+            });
+            let case = json!({"kind": "print-history", "first": firsts[i].show(), "record": records[j].0, "reentrant_probe": pi});
+            let what = format!("printing {} under the record [{}] into a destination that prints {} itself on every chunk", firsts[i].show(), records[j].0, probe.show());
+            match h.join() {
+                Ok(Ok((ok, out, inner))) => {
+                    let inner_bad = inner.iter().find(|(c, p)| match mode {
+                        Mode::C08 => *c != rp::compact(probe),
+                        Mode::C13 => *c != rp::compact(probe) || *p != rp::print(probe, &Opts::pretty()),
+                        Mode::C04 => [c, p].iter().any(|x| !matches!(Value::parse_str(x), Ok((back, _)) if back == probe_real)),
+                    });
+                    let outer_bad = !ok
+                        || match mode {
+                            Mode::C08 => records[j].1 == Opts::compact() && out != rp::compact(&firsts[i]),
+                            Mode::C13 => out != rp::print(&firsts[i], &records[j].1),
+                            Mode::C04 => !matches!(Value::parse_str(&out), Ok((back, _)) if back == first_real),
+                        };
+                    if let Some((c, p)) = inner_bad {
+                        t.violation("", format!("{what}: the inner prints give {c:?} / {p:?}"), case.clone());
+                    }
+                    if outer_bad {
+                        t.violation("", format!("{what}: the outer print gives {out:?} (completed: {ok})"), case);
+                    }
+                }
+                Ok(Err(p)) => t.violation("", format!("{what}: panicked: {p}"), case),
+                Err(_) => t.violation("", format!("{what}: the thread died"), case),
+            }
+        }
         t.nontrivial(&("print-history", i, j));
         t.outcome("print history: probes unaffected by an earlier (failed, panicked or completed) print");
     });
-    rep.bounds["print_history"] = json!({"first_values": firsts.len(), "records": records.len(), "destinations": ["fails after k bytes", "panics after k bytes", "accepts everything"], "k": "every k < 96, then every 7th", "probes": probes.len(), "routes_per_probe": 7, "fresh_thread_per_case": true});
+    rep.bounds["print_history"] = json!({"first_values": firsts.len(), "records": records.len(), "destinations": ["fails after k bytes", "panics after k bytes", "accepts everything", "prints another value itself on every chunk (re-entrant)"], "k": "every k < 96, then every 7th", "probes": probes.len(), "routes_per_probe": 7, "fresh_thread_per_case": true});
     rep.absorb(t);
 }
 
